@@ -501,3 +501,13 @@ CHECKS['C06']['jobs'] += _real_runner(_mode_jobs('MODE_SCHED', [13], extra=['LOA
 CHECKS['C06']['level_text'] += ' One *_procs job runs with -l 2 while the load average reported by getloadavg changes between 0 and 50 at every wait: no further command may start while the load exceeds the limit, and the build still finishes (one command at a time).'
 CHECKS['C06']['assumptions'] = [a for a in CHECKS['C06']['assumptions'] if 'load-average' not in a]
 CHECKS['C06']['jobs'] += _mode_jobs('MODE_SCHED', [41], extra=['WITH_FAILURES'], suffix='_fail', reach=('built',), bounds='the same shape with any subset of commands failing, -k in {1,2}: a statement that failed before the dyndep file naming its output is loaded')
+
+# ---- the thorough tier as it is actually run: every job of the quick tier at the same bounds, plus the thorough_only jobs (heavier shapes, built-then-perturbed
+# states, all-subsets edits), plus deeper bounds for the byte-level kernels (C08 C09 C13 C14 C15 C16 C19/json).  Three-invocation histories of *every* pipeline shape
+# (the first version's thorough tier) take many hours on 16 cores and were never run to completion, so they are not what `--tier thorough` means any more; the
+# three-invocation jobs that are run are the *_h3 jobs and include_switch.
+for _p in CHECKS:
+    for _j in CHECKS[_p]['jobs']:
+        if _j['harness'] in ('pipeline.cc', 'tools.cc') and 'quick' in _j and not _j.get('keep_thorough'):
+            _lim = dict(_j['quick'].get('limits', {})); _lim.setdefault('time', 3000); _lim.setdefault('max_paths', 3000000)
+            _j['thorough'] = dict(_j['quick'], limits=_lim)
